@@ -172,13 +172,17 @@ impl Compiler {
         program: &Program,
         source_file: String,
     ) -> Result<Rc<BytecodeChunk>, JsError> {
-        let mut compiler = Compiler::with_source_file(source_file);
+        let mut compiler = Compiler::with_source_file(source_file.clone());
 
         // First, hoist all var declarations and function declarations to the top
-        compiler.emit_hoisted_declarations(&program.body)?;
+        compiler
+            .emit_hoisted_declarations(&program.body)
+            .map_err(|e| e.in_file(&source_file))?;
 
         // Then compile the statements
-        compiler.compile_statements(&program.body)?;
+        compiler
+            .compile_statements(&program.body)
+            .map_err(|e| e.in_file(&source_file))?;
         compiler.builder.emit_halt();
         Ok(Rc::new(compiler.builder.finish()))
     }
